@@ -51,6 +51,11 @@ type c21Case struct {
 //	ack                    peer acknowledges every packet sent so far
 //	lclose:I               Close() of the I-th locally opened stream
 //	lpf:I                  peer STREAM+FIN on the I-th locally opened stream (bidi)
+//	lreset:I               Reset(0) + CloseRead() of the I-th locally opened stream
+//	forgot:I               not an event but a precondition (used in fixed prefixes only): the conn no longer tracks
+//	                       the I-th locally opened stream; if it still does, the case ends here (truncated)
+//	l<k>#N                 peer frame of kind k (as above; s, f, r: bidi only) on the LOCALLY-initiated focus-type
+//	                       stream number N, whatever its state: open, closed and forgotten by the conn, never opened
 
 type c21Run struct {
 	w    *vx.W
@@ -345,6 +350,68 @@ func (r *c21Run) step(op string) bool {
 			return false
 		}
 		l[i].Close()
+	case name == "lreset":
+		i, _ := strconv.Atoi(arg)
+		if i >= len(r.locals) {
+			return false
+		}
+		r.locals[i].Reset(0)
+		r.locals[i].CloseRead()
+	case name == "forgot":
+		i, _ := strconv.Atoi(arg)
+		if i >= len(r.locals) {
+			return false
+		}
+		synctest.Wait()
+		if q.tc.conn.streamForID(r.locals[i].id) != nil {
+			w.Outcome("prefix:local-stream-not-forgotten")
+			return false
+		}
+		w.Outcome("prefix:local-stream-forgotten")
+	case len(op) >= 4 && op[0] == 'l' && op[2] == '#':
+		kind := op[1]
+		num, _ := strconv.ParseInt(op[3:], 10, 64)
+		t := r.ft
+		if t == uniStream && kind != 'm' && kind != 't' {
+			return false // not a legal frame for a send-only stream
+		}
+		id := newStreamID(r.side, t, num)
+		var f debugFrame
+		switch kind {
+		case 's':
+			f = debugFrameStream{id: id}
+		case 'f':
+			f = debugFrameStream{id: id, fin: true}
+		case 'r':
+			f = debugFrameResetStream{id: id}
+		case 'm':
+			f = debugFrameMaxStreamData{id: id, max: 1 << 20}
+		case 't':
+			f = debugFrameStopSending{id: id}
+		default:
+			r.q.t.Fatalf("unknown op %q", op)
+		}
+		q.write(f)
+		if num >= r.lopened[t] {
+			// A frame for a local stream the conn never opened: the property
+			// says nothing about the reaction; the history ends here.
+			r.observe(op)
+			if w.Failed() {
+				return false
+			}
+			if q.closed {
+				w.Outcome("local-frame:never-opened:conn-closed")
+			} else {
+				w.Outcome("local-frame:never-opened:conn-open")
+			}
+			r.expClosed = true
+			return false
+		}
+		// Every frame sent here is legal on an opened local stream in any state
+		// (no data, final size 0), so the generic checks below apply.
+		w.Outcome("local-frame:opened-stream")
+		// a late frame neither opens nor wakes anything
+		r.reapPending(op, 0)
 	case name == "lpf":
 		i, _ := strconv.Atoi(arg)
 		if i >= len(r.locals) || r.locals[i].id.streamType() != bidiStream {
@@ -452,6 +519,7 @@ type c21Gen struct {
 	locals   int
 	lclosed  map[int]bool
 	lmaxPred int64
+	pendingB int // predicted blocked openers (newb)
 	last     string
 	terminal bool
 }
@@ -498,9 +566,11 @@ func (g *c21Gen) enabled(op string) bool {
 	case name == "close":
 		i, _ := strconv.Atoi(arg)
 		return i < g.accepted && !g.closed[i]
-	case name == "lclose":
+	case name == "lclose" || name == "lreset":
 		i, _ := strconv.Atoi(arg)
 		return i < g.locals && !g.lclosed[i]
+	case len(op) >= 4 && op[0] == 'l' && op[2] == '#':
+		return op[1] == 'm' || op[1] == 't' || g.cfg.Styp == "bidi"
 	case name == "lpf":
 		i, _ := strconv.Atoi(arg)
 		return i < g.locals && g.cfg.Styp == "bidi"
@@ -529,16 +599,26 @@ func (g *c21Gen) apply(op string) {
 		i, _ := strconv.Atoi(arg)
 		g.closed[i] = true
 		g.nClose++
-	case name == "lclose":
+	case name == "lclose" || name == "lreset":
 		i, _ := strconv.Atoi(arg)
 		g.lclosed[i] = true
+	case len(op) >= 4 && op[0] == 'l' && op[2] == '#':
+		if n, _ := strconv.Atoi(op[3:]); n >= g.locals {
+			g.terminal = true // never-opened local stream: the history ends
+		}
 	case op == "new" || op == "newb":
 		if int64(g.locals) < g.lmaxPred {
 			g.locals++
+		} else if op == "newb" {
+			g.pendingB++
 		}
 	case name == "max":
 		v, _ := strconv.ParseInt(arg, 10, 64)
 		g.lmaxPred = max(g.lmaxPred, v)
+		for g.pendingB > 0 && int64(g.locals) < g.lmaxPred {
+			g.pendingB--
+			g.locals++
+		}
 	case strings.HasPrefix(op, "ops"):
 		n, _ := strconv.ParseInt(op[4:], 10, 64)
 		if n >= c21OtherMaxRemote {
@@ -563,8 +643,10 @@ func (g *c21Gen) apply(op string) {
 	g.last = op
 }
 
-// c21Enumerate yields every enabled op sequence of length <= depth, shortest first.
-func c21Enumerate(cfg c21Cfg, ops []string, depth int, yield func(c21Case) bool) bool {
+// c21Enumerate yields, behind the fixed prefix seed (part of every yielded
+// case, not counted in depth), every enabled op sequence of length 1..depth,
+// shortest first.
+func c21Enumerate(cfg c21Cfg, seed []string, ops []string, depth int, yield func(c21Case) bool) bool {
 	type node struct {
 		g    *c21Gen
 		path []string
@@ -573,7 +655,11 @@ func c21Enumerate(cfg c21Cfg, ops []string, depth int, yield func(c21Case) bool)
 	for _, o := range ops {
 		opset[o] = true
 	}
-	level := []node{{g: &c21Gen{cfg: cfg, ops: opset, closed: map[int]bool{}, lclosed: map[int]bool{}, framed: map[int64]bool{}, lmaxPred: cfg.PeerInit}}}
+	root := &c21Gen{cfg: cfg, ops: opset, closed: map[int]bool{}, lclosed: map[int]bool{}, framed: map[int64]bool{}, lmaxPred: cfg.PeerInit}
+	for _, op := range seed {
+		root.apply(op)
+	}
+	level := []node{{g: root, path: append([]string(nil), seed...)}}
 	for d := 1; d <= depth; d++ {
 		var next []node
 		for _, nd := range level {
@@ -697,6 +783,38 @@ type c21Part struct {
 	cfgs  []c21Cfg
 	ops   []string
 	depth int
+	seeds func(cfg c21Cfg) [][]string // fixed prefixes (nil: the empty prefix only)
+}
+
+// c21SeedOpens: the conn has opened every stream the peer's initial limit allows.
+func c21SeedOpens(cfg c21Cfg) [][]string {
+	var seed []string
+	for i := int64(0); i < cfg.PeerInit; i++ {
+		seed = append(seed, "new")
+	}
+	return [][]string{seed}
+}
+
+// c21SeedForgotten: the conn has opened n local streams, n = the peer's limit
+// and n = the limit - 1 (n >= 1), and stream 0 has been closed completely and
+// forgotten, either gracefully (for bidi the peer's FIN first; Close; the
+// conn's FIN acknowledged) or abruptly (Reset + CloseRead; for bidi the peer's
+// RESET_STREAM; the conn's RESET_STREAM acknowledged).
+func c21SeedForgotten(cfg c21Cfg) (seeds [][]string) {
+	hows := [][]string{{"lclose:0", "ack", "forgot:0"}, {"lreset:0", "ack", "forgot:0"}}
+	if cfg.Styp == "bidi" {
+		hows = [][]string{{"lf#0", "lclose:0", "ack", "forgot:0"}, {"lreset:0", "lr#0", "ack", "forgot:0"}}
+	}
+	for n := cfg.PeerInit; n >= max(cfg.PeerInit-1, 1); n-- {
+		for _, how := range hows {
+			var seed []string
+			for i := int64(0); i < n; i++ {
+				seed = append(seed, "new")
+			}
+			seeds = append(seeds, append(seed, how...))
+		}
+	}
+	return seeds
 }
 
 func c21Parts(c *vx.Ctx) []c21Part {
@@ -722,30 +840,54 @@ func c21Parts(c *vx.Ctx) []c21Part {
 		}
 	}
 	kinds = append(kinds, "acc", "close:0", "ack")
+	// every frame kind on the conn's own stream numbers 0, 1, 2, plus the operations that matter afterwards
+	var lkinds []string
+	for _, tg := range []string{"#0", "#1", "#2"} {
+		for _, k := range "sfrmt" {
+			lkinds = append(lkinds, fmt.Sprintf("l%c%s", k, tg))
+		}
+	}
+	lkinds = append(lkinds, "new", "newb", "max:2", "max:3", "ack", "lclose:1")
 	remote := []string{"ps#0", "pf#0", "pr#0", "ps@-1", "pf@-1", "acc", "close:0", "close:1", "ack", "ps@0", "pr@0"}
 	return []c21Part{
 		// local stream creation against the peer's MAX_STREAMS
 		{"local", cfgs([]int64{1}, []int64{0, 1, 2}),
-			[]string{"new", "newb", "max:1", "max:2", "max:3", "omax:3", "onew"}, vx.Pick(c, 4, 5)},
+			[]string{"new", "newb", "max:1", "max:2", "max:3", "omax:3", "onew"}, vx.Pick(c, 4, 5), nil},
 		// peer-created streams against the conn's advertised limit
-		{"remote-kinds", cfgs([]int64{0, 1, 2}, []int64{1}), kinds, vx.Pick(c, 2, 3)},
+		{"remote-kinds", cfgs([]int64{0, 1, 2}, []int64{1}), kinds, vx.Pick(c, 2, 3), nil},
 		// the two stream types do not share a limit
 		{"cross-type", cfgs([]int64{1}, []int64{1}),
-			[]string{"pf#0", "ops#0", "ops#1", "acc", "close:0", "close:1", "ps@0", "ps@-1", "omax:3", "onew", "new"}, vx.Pick(c, 4, 5)},
+			[]string{"pf#0", "ops#0", "ops#1", "acc", "close:0", "close:1", "ps@0", "ps@-1", "omax:3", "onew", "new"}, vx.Pick(c, 4, 5), nil},
 		// finishing local streams must not extend the peer's limit
 		{"mixed", cfgs([]int64{1}, []int64{1}),
-			[]string{"new", "lclose:0", "lpf:0", "ack", "pf#0", "acc", "close:0", "ps@0", "ps@-1", "max:1"}, vx.Pick(c, 5, 6)},
+			[]string{"new", "lclose:0", "lpf:0", "ack", "pf#0", "acc", "close:0", "ps@0", "ps@-1", "max:1"}, vx.Pick(c, 5, 6), nil},
 		// deeper histories of peer-created streams
-		{"remote-0-2-3", cfgs([]int64{0, 2, 3}, []int64{1}), remote, vx.Pick(c, 4, 6)},
-		{"remote-1", cfgs([]int64{1}, []int64{1}), remote, vx.Pick(c, 6, 7)},
+		{"remote-0-2-3", cfgs([]int64{0, 2, 3}, []int64{1}), remote, vx.Pick(c, 4, 6), nil},
+		{"remote-1", cfgs([]int64{1}, []int64{1}), remote, vx.Pick(c, 6, 7), nil},
+		// peer frames addressed to the conn's own streams in every life-cycle state (open, closed and
+		// forgotten, never opened) with the conn at / one below the peer's limit: every frame kind on
+		// every target for short histories behind a prefix that closes stream 0 completely ...
+		{"local-kinds", cfgs([]int64{1}, []int64{1, 2}), lkinds, vx.Pick(c, 3, 4), c21SeedForgotten},
+		// ... and deeper histories where the closing steps themselves are explored in any order,
+		// interleaved with late frames, behind a prefix that only reaches the limit
+		{"local-late", cfgs([]int64{1}, []int64{1}),
+			vx.Pick(c,
+				[]string{"new", "lclose:0", "lreset:0", "ack", "lf#0", "lr#0", "lm#0", "max:2"},
+				[]string{"new", "newb", "lclose:0", "lreset:0", "ack", "lf#0", "lr#0", "lm#0", "lt#0", "max:2"}),
+			vx.Pick(c, 5, 6), c21SeedOpens},
+		// the same with two local streams at a limit of 2, either of which may be the one that is closed
+		{"local-late-2", cfgs([]int64{1}, []int64{2}),
+			[]string{"new", "lclose:0", "lclose:1", "ack", "lf#1", "lm#0", "lm#1", "max:3"},
+			vx.Pick(c, 4, 6), c21SeedOpens},
 	}
 }
 
 func TestVerif_C21(t *testing.T) {
 	vx.Run(t, "C21", func(c *vx.Ctx) {
-		c.Rule("q-peer: for every configuration (conn side, stream type in focus, configured Max*RemoteStreams 0..3, peer initial_max_streams 0..2) every sequence of enabled operations up to the depth of the part, shortest first, each on a fresh handshaken Conn in its own synctest bubble; operations: local NewStream with cancelled / live context, peer MAX_STREAMS (any order, stale values), peer STREAM/FIN/RESET_STREAM/MAX_STREAM_DATA/STOP_SENDING on stream numbers {0,1,2,limit-1,limit,limit+5}, AcceptStream, Close of accepted/local streams, ACK of everything sent; a monitor reads every frame the conn sends after every step. Non-trivial = the whole sequence was executed on the real conn (or ended in the expected STREAM_LIMIT_ERROR at its last step). q-unit: BFS with state dedup over open/close/send on remoteStreamLimits. Counters: states = histories explored completely (stateless search, no deduplication), transitions = operations applied to the real conn and checked, traces = cases executed.")
+		c.Rule("q-peer: for every configuration (conn side, stream type in focus, configured Max*RemoteStreams 0..3, peer initial_max_streams 0..2) every sequence of enabled operations up to the depth of the part, shortest first, each on a fresh handshaken Conn in its own synctest bubble; operations: local NewStream with cancelled / live context, peer MAX_STREAMS (any order, stale values), peer STREAM/FIN/RESET_STREAM/MAX_STREAM_DATA/STOP_SENDING on stream numbers {0,1,2,limit-1,limit,limit+5}, AcceptStream, Close of accepted/local streams, Reset+CloseRead of local streams, ACK of everything sent, and peer STREAM/FIN/RESET_STREAM/MAX_STREAM_DATA/STOP_SENDING addressed to the conn's OWN stream numbers {0,1,2} in every life-cycle state (open, half closed, completely closed and forgotten, never opened) with the conn exactly at / one below the peer's limit; a monitor reads every frame the conn sends after every step. The parts local-kinds / local-late / local-late-2 enumerate behind fixed prefixes (not counted in the depth): local-kinds behind each of {n opens, n = limit and limit-1} x {peer FIN, Close, ACK | Reset+CloseRead, peer RESET_STREAM, ACK} with the precondition that the conn has forgotten stream 0 (checked on the real conn; it held in every case or the outcome prefix:local-stream-not-forgotten is listed); local-late* behind 'limit' opens, so that the closing steps themselves are explored in every order interleaved with late frames and further opens. Non-trivial = the whole sequence was executed on the real conn (or ended in the expected STREAM_LIMIT_ERROR at its last step). q-unit: BFS with state dedup over open/close/send on remoteStreamLimits. Counters: states = histories explored completely (stateless search, no deduplication), transitions = operations applied to the real conn and checked, traces = cases executed.")
 		c.Assume("a peer stream counts as no longer open once its final size is known to the conn (FIN or RESET_STREAM received) and, for bidirectional streams, a packet carrying the conn's FIN or RESET_STREAM was acknowledged; this is the weakest reading of 'closed', so the simultaneous-streams bound is not over-strict")
-		c.Assume("no packet loss or reordering in this check (C20/C32 cover loss); the advertised limit is the one in frames the scripted peer has actually read; the other stream type is fixed at 1 remote / 0 local streams")
+		c.Assume("a peer frame for a local stream the conn never opened ends the history without a verdict (the property does not say how the conn reacts); frames addressed to local streams carry no data and final size 0, so they are legal in every state of an opened stream")
+		c.Assume("no packet loss or reordering of the conn's own packets in this check (C20/C32 cover loss); late/duplicate peer frames for finished streams are in the alphabet; the advertised limit is the one in frames the scripted peer has actually read; the other stream type is fixed at 1 remote / 0 local streams")
 
 		if s, _ := c.Shard(); s == 0 {
 			for _, mo := range []int64{0, 1, 2, 3, 8, 100} {
@@ -757,8 +899,14 @@ func TestVerif_C21(t *testing.T) {
 			vx.Enumerate(c, p.name, vx.Opts{Serial: true, Crumb: true}, func(yield0 func(c21Case) bool) {
 				yield := qpeerDeadlineYield(c, yield0)
 				for _, cfg := range p.cfgs {
-					if !c21Enumerate(cfg, p.ops, p.depth, yield) {
-						return
+					seeds := [][]string{nil}
+					if p.seeds != nil {
+						seeds = p.seeds(cfg)
+					}
+					for _, seed := range seeds {
+						if !c21Enumerate(cfg, seed, p.ops, p.depth, yield) {
+							return
+						}
 					}
 				}
 			}, check)
